@@ -215,7 +215,9 @@ def c08(ctx):
                 if a['k'] in ('move', 'copy') and not a['pl']['p'] and a['pl']['l'] in ends:
                     fut_ends.add(ends[a['pl']['l']])
         key = 'future_sync|channel-pairing'
-        if len(chans) != 2 or len(job_ends) != 2 or len(fut_ends) != 2:
+        if len(chans) == 2 and len(ends) >= 4 and (len(job_ends) < 2 or len(fut_ends) < 2):
+            out.append(bad(R, key, 'an end of the two hand-shake channels is not handed to the slot job / the SyncFuture (job %s, future %s): dropped early, its peer sees "finished"/"cancelled" at once and the operation runs outside its slot' % (sorted(job_ends), sorted(fut_ends)), fn=fs.name))
+        elif len(chans) != 2 or len(job_ends) != 2 or len(fut_ends) != 2:
             out.append(undecided(R, key, 'expected two oneshot channels split between the slot job and the SyncFuture (channels %d, job ends %s, future ends %s)' % (len(chans), sorted(job_ends), sorted(fut_ends))))
         else:
             js = [c for c, e in job_ends if e == 'S']
@@ -1232,6 +1234,40 @@ def c16(ctx):
             out.append(ok(R, 'PipeStream::drop|sets-closed', 'dropping the output stream marks the core closed (under its lock) on every path', fn=dr0.name))
         else:
             out.append(bad(R, 'PipeStream::drop|sets-closed', 'dropping the output stream does not (always) mark the core closed: the producer keeps reading its input', fn=dr0.name))
+    # whenever the producer finds the core closed it stops (returns false)
+    key = 'pipe|closed-means-stop'
+    closed_true = []
+    for bb, b in enumerate(k.blocks):
+        t = b['term']
+        if t and t['k'] == 'switch' and not b['cleanup'] and t['discr']['k'] != 'const':
+            e = k.expr_of_local(t['discr']['pl']['l'])
+            if render(e).endswith('.closed') and 'lock(' in render(e):
+                closed_true.append(t['otherwise'])
+    def _ret_consts(edge):
+        seen, st_, vals = set(), [edge], set()
+        while st_:
+            x = st_.pop()
+            if x in seen:
+                continue
+            seen.add(x)
+            hit = False
+            for s_ in k.blocks[x]['stmts']:
+                if s_['k'] == 'assign' and not s_['pl']['p'] and s_['pl']['l'] == 0 and s_['rv']['k'] == 'use' and s_['rv']['op']['k'] == 'const':
+                    vals.add(str(s_['rv']['op'].get('val')))
+                    hit = True
+            if not hit:
+                t_ = k.blocks[x]['term']
+                if t_ and t_['k'] in ('goto', 'drop', 'falseedge', 'falseunwind', 'call'):
+                    st_.extend(k.succs(x))
+                elif t_ and t_['k'] in ('switch', 'yield'):
+                    vals.add('?')
+        return vals
+    if len(closed_true) < 2:
+        out.append(undecided(R, key, 'expected two tests of `closed` in the producer, found %d' % len(closed_true)))
+    elif all(_ret_consts(e_) == {'0'} for e_ in closed_true):
+        out.append(ok(R, key, 'both tests of `closed` lead to `return false` (the poll function, input stream and closure are then released)', fn=k.name))
+    else:
+        out.append(bad(R, key, 'the producer sees the core closed but keeps the pipe alive (does not return false)', fn=k.name))
     # on_drop runs on the disposal queue
     dr = F.fn('<desync::pipe::PipeStream as core::ops::drop::Drop>::drop')
     key = 'PipeStream::drop|on_drop-on-chute'
